@@ -106,11 +106,16 @@ func runC17(c c17Case, barriers int) (*vh.Violation, vh.Outcome, bool) {
 				for len(q) > 0 {
 					<-q
 				}
-				if v := send(&gossipv1.ObservationRequest{ChainId: o.Chain, TxHash: []byte(fmt.Sprintf("flood-%d-%d", i, j))}); v != nil {
+				fid := 100000 + 10000*(o.Tx%50) + j // flood transactions have ids of their own: (chain, Tx) can be asked for again later
+				before := len(q)
+				if v := send(&gossipv1.ObservationRequest{ChainId: o.Chain, TxHash: c17Tx(fid)}); v != nil {
 					return v, out, false
 				}
 				if v := barrier(1); v != nil {
 					return v, out, false
+				}
+				if len(q) > before {
+					lastFwd[key{o.Chain, fid}] = mock.Now() // forwarded now: remembered from now
 				}
 			}
 			for len(q) > 0 {
@@ -233,7 +238,7 @@ func qlens(qs map[vaa.ChainID]chan *gossipv1.ObservationRequest) string {
 func genC17(t *rapid.T) c17Case {
 	c := c17Case{Caps: rapid.SliceOfN(rapid.IntRange(0, 3), 3, 3).Draw(t, "caps")}
 	op := rapid.Custom(func(t *rapid.T) []c17Op {
-		switch rapid.SampledFrom([]string{"request", "request", "request", "request", "advance", "advance", "drain", "window", "window", "flood"}).Draw(t, "k") {
+		switch rapid.SampledFrom([]string{"request", "request", "request", "request", "advance", "advance", "drain", "window", "window", "flood", "flood-lapse"}).Draw(t, "k") {
 		case "advance":
 			return []c17Op{{K: "advance", Secs: rapid.OneOf(rapid.IntRange(1, 1500), rapid.SampledFrom([]int{60, 300, 420, 659, 660, 661, 1079, 1080, 1081, 1140})).Draw(t, "secs")}}
 		case "drain":
@@ -243,6 +248,15 @@ func genC17(t *rapid.T) c17Case {
 			tx := rapid.IntRange(0, 5).Draw(t, "tx")
 			return []c17Op{{K: "drain", Chain: ch}, {K: "request", Chain: ch, Tx: tx}, {K: "flood", Chain: rapid.SampledFrom(c17Known).Draw(t, "fchain"), Secs: rapid.SampledFrom([]int{40, 300, 1100, 1600}).Draw(t, "n")},
 				{K: "advance", Secs: rapid.IntRange(1, 600).Draw(t, "in")}, {K: "request", Chain: ch, Tx: tx}}
+		case "flood-lapse": // many transactions forwarded at once, the window lapses for all of them, some are asked for again
+			ch := rapid.SampledFrom(c17Known).Draw(t, "chain")
+			fl := rapid.IntRange(0, 3).Draw(t, "floodid")
+			n := rapid.SampledFrom([]int{30, 600, 1300}).Draw(t, "n")
+			out := []c17Op{{K: "flood", Chain: ch, Tx: fl, Secs: n}, {K: "advance", Secs: rapid.IntRange(1081, 1500).Draw(t, "out")}, {K: "drain", Chain: ch}}
+			for _, j := range []int{0, n / 3, n / 2, n - 2, n - 1} {
+				out = append(out, c17Op{K: "request", Chain: ch, Tx: 100000 + 10000*fl + j}, c17Op{K: "drain", Chain: ch})
+			}
+			return out
 		case "window": // forward, repeat inside the window, let the window lapse, repeat
 			ch := rapid.SampledFrom(c17Known).Draw(t, "chain")
 			tx := rapid.IntRange(0, 5).Draw(t, "tx")
